@@ -378,7 +378,7 @@ def main_check(prop, tier='quick', seed=0, jobs=None):
     st_failed = []
     if tier == 'thorough':
       from . import selftest as st
-      selftest, st_failed = st.run_selftest(prop, mod, violation_keys(ctx), seed, jobs)
+      selftest, st_failed = st.run_selftest(prop, mod, violation_keys(ctx), seed, jobs, owners=[(o.module, o.function) for o in ctx.obligations])
       stale = [e for e in known.get('known', []) if e.get('property') == prop and
                not any(known_match(e, o.key(prop)) for o in ctx.obligations if not o.ok)]
       if stale:
